@@ -87,6 +87,12 @@ LEVEL_TEXT = ("Theorems (Coq/MathComp, every size, every field): the model's Lap
               "Outer_Vector_Product; history step 'lib'): that such calls leave nothing behind that changes a later answer or its exit status is not a theorem (the model has no such state) - it is checked by "
               "correspondence and S4 on singular (integer with rounding residue, duplicate / dependent rows, generic entries) and regular matrices. Known findings K-C05-1/-2 (see "
               "known_findings.d/C05.json) are properties of floating-point evaluation (overflow / underflow, i.e. outside the standard-model premise), outside the theorems. "
+              "Inverse() statement by statement (coq/C05_Model2.v, inverse_lbl: the work array Matrix A(N, 2N, 0.0) changed IN PLACE one assignment after the other in loop order, "
+              "std::swap of two rows, N calls of Delete_Column(0)) is the term whose result is compared with the library for every request 'inverse' (bit-identical; the driver also "
+              "compares it with the table model on every case); C05_inverse_inplace_is_model proves inverse_lbl = inverse for EVERY arithmetic, every size, every matrix, by induction over "
+              "every loop (parts: C05_inplace_augment, C05_inplace_row_exchange, C05_inplace_eliminate, C05_inplace_finish; C05_pivot_row_in_range: the pivot search returns a row inside "
+              "the array in every arithmetic), so the theorems about Inverse hold for the in-place code as written. Not represented: the test i >= rows of the non-const operator[] inside "
+              "Inverse() (all indices are loop variables bounded by N / 2N; see coverage/C05.md for the full table of what is modelled line by line, by specification, or only driven). "
               "The Gallina model is extracted and run against libphysica on every run (bit-identical).")
 LEVEL_NOTE = ("Coq 8.16.1 + MathComp 1.15 (+ algebra-tactics ring, mczify lia in the rounding proofs), axiom-free; hand-written model (coq/C05_Model.v, uses coq/C04_Model.v) tied by differential correspondence; "
               "the algebraic theorems are about exact field arithmetic (the exact values of the doubles); pivot choice (fabs, >) is left uninterpreted in the "
